@@ -73,7 +73,8 @@ pub fn run(tier: &str) -> Result<Report, String> {
     {
         use rayon::prelude::*;
         let models: Vec<&str> = vec!["synthetic:chain60", "synthetic:gated44", "synthetic:chain58p", "synthetic:chain44p2", "synthetic:chain40"];
-        let jobs: Vec<Value> = models.iter().map(|m| json!({"kind": "c02big", "model": m})).collect();
+        // one child process per (model, domain): a slow case cannot hide the others behind the wall limit
+        let jobs: Vec<Value> = models.iter().flat_map(|m| (0..7).map(move |d| json!({"kind": "c02big", "model": m, "domain_index": d}))).collect();
         let limit = if tier == "quick" { 40.0 } else { 600.0 };
         let results: Vec<(Value, crate::jobs::JobResult)> = jobs.par_iter().map(|j| (j.clone(), crate::jobs::run(j, limit))).collect();
         let mut big = vec![];
@@ -88,7 +89,7 @@ pub fn run(tier: &str) -> Result<Report, String> {
                     for p in v["problems"].as_array().cloned().unwrap_or_default() {
                         rep.violations.push(Violation { case: json!({"kind": "c02big", "model": j["model"], "only": p["case"]}), what: format!("on {}: {}", j["model"].as_str().unwrap_or(""), p["what"].as_str().unwrap_or("")), size: 60 });
                     }
-                    big.push(json!({"model": j["model"], "variables": v["variables"], "colours": v["colours"], "pairs_log2": v["pairs_log2"], "domains": v["domains"], "cases": v["cases"], "wall_s": v["wall_s"]}));
+                    big.push(json!({"model": j["model"], "domain": v["domains"][j["domain_index"].as_u64().unwrap_or(0) as usize], "variables": v["variables"], "colours": v["colours"], "pairs_log2": v["pairs_log2"], "cases": v["cases"], "wall_s": v["wall_s"]}));
                 }
                 crate::jobs::JobResult::Timeout => rep.cap(format!("job {j} exceeded {limit}s and was stopped (no verdict)")),
                 crate::jobs::JobResult::Crashed(e) => return Err(format!("wide model job {j} crashed: {e}")),
@@ -142,7 +143,12 @@ pub fn job(job: &Value) -> Value {
     let bodies = ["True", "AX {x}", "EX {x}", "~%d%", "%q%", "{x}", "EF {x}"];
     let mut problems = vec![];
     let mut cases = 0u64;
-    for (dname, d) in &domains {
+    for (di, (dname, d)) in domains.iter().enumerate() {
+        if let Some(i) = job["domain_index"].as_u64() {
+            if i as usize != di {
+                continue;
+            }
+        }
         let ctx: HashMap<String, GraphColoredVertices> = HashMap::from([("d".to_string(), d.clone()), ("q".to_string(), unit.minus(&zero).minus(&mark))]);
         let eval = |text: &str| mc::model_check_extended_formula_dirty(text, g, &ctx);
         let mut compare = |case: String, lhs: &str, rhs: Result<GraphColoredVertices, String>, rhs_desc: &str| {
